@@ -130,3 +130,53 @@ pub fn hmac_sha1(key: &[u8], msg: &[u8]) -> [u8; 20] {
     let inner = sha(&[&ipad, msg]);
     sha(&[&opad, &inner])
 }
+
+// ------------------------------------------------------------------------------------------------
+// Textbook WoW-SRP6 values computed independently of wow_srp's own formulas (num-bigint used
+// directly + the sha1 crate).  Used only by implementation-level oracles to SEARCH for failing
+// inputs on large samples; the deciding specification is the Coq one.
+use num_bigint::{BigInt, Sign};
+pub fn bi(le: &[u8]) -> BigInt { BigInt::from_bytes_le(Sign::Plus, le) }
+pub fn le32b(x: &BigInt) -> [u8; 32] {
+    let (_, b) = x.to_bytes_le();
+    let mut o = [0u8; 32];
+    let n = b.len().min(32);
+    o[..n].copy_from_slice(&b[..n]);
+    o
+}
+pub fn modp(x: &BigInt, n: &BigInt) -> BigInt { let r = x % n; if r.sign() == Sign::Minus { r + n } else { r } }
+pub fn spec_x(u: &[u8], p: &[u8], salt: &[u8]) -> [u8; 20] { let h = sha(&[u, b":", p]); sha(&[salt, &h]) }
+pub fn spec_interleave(s: &[u8; 32]) -> [u8; 40] {
+    let mut t: &[u8] = &s[..];
+    while !t.is_empty() && t[0] == 0 { t = &t[1..]; }
+    if t.len() % 2 == 1 { t = &t[1..]; }
+    let e: Vec<u8> = t.iter().step_by(2).copied().collect();
+    let o: Vec<u8> = t.iter().skip(1).step_by(2).copied().collect();
+    let (g, h) = (sha(&[&e]), sha(&[&o]));
+    let mut k = [0u8; 40];
+    for i in 0..20 { k[2 * i] = g[i]; k[2 * i + 1] = h[i]; }
+    k
+}
+pub fn spec_m1(g: u8, n_le: &[u8; 32], u: &[u8], salt: &[u8], a: &[u8], b: &[u8], k: &[u8]) -> [u8; 20] {
+    let hn = sha(&[n_le]); let hg = sha(&[&[g]]);
+    let x: Vec<u8> = hn.iter().zip(hg.iter()).map(|(p, q)| p ^ q).collect();
+    let hu = sha(&[u]);
+    sha(&[&x, &hu, salt, a, b, k])
+}
+pub struct SpecSession { pub v: [u8; 32], pub b_pub: [u8; 32], pub a_pub: [u8; 32], pub s: [u8; 32], pub k: [u8; 40], pub m1: [u8; 20], pub m2: [u8; 20] }
+/// all handshake values from (U, P, salt, b, a) under the group (g, n)
+pub fn spec_session(u: &[u8], p: &[u8], salt: &[u8], b: &[u8], a: &[u8], g: u8, n_le: &[u8; 32]) -> SpecSession {
+    let n = bi(n_le); let gz = BigInt::from(g); let k3 = BigInt::from(3);
+    let x = bi(&spec_x(u, p, salt));
+    let v = gz.modpow(&x, &n);
+    let bz = modp(&(&k3 * &v + gz.modpow(&bi(b), &n)), &n);
+    let az = gz.modpow(&bi(a), &n);
+    let (a_pub, b_pub) = (le32b(&az), le32b(&bz));
+    let uz = bi(&sha(&[&a_pub, &b_pub]));
+    let s = modp(&(&bz - &k3 * &v), &n).modpow(&(bi(a) + &uz * &x), &n);
+    let s = le32b(&s);
+    let k = spec_interleave(&s);
+    let m1 = spec_m1(g, n_le, u, salt, &a_pub, &b_pub, &k);
+    let m2 = sha(&[&a_pub, &m1, &k]);
+    SpecSession { v: le32b(&v), b_pub, a_pub, s, k, m1, m2 }
+}
